@@ -49,8 +49,8 @@ PROPS = {
         explore=ce.explore_c10,
     ),
     "C18": dict(
-        modules=["JPV.Props.C18"],
-        theorems=["JPV.Props.C18_boundary", "JPV.Props.C18_complete", "JPV.Props.C18_raise", "JPV.Props.C18_steps"],
+        modules=["JPV.Props.C18", "JPV.Props.C13"],
+        theorems=["JPV.Props.C18_boundary", "JPV.Props.C18_complete", "JPV.Props.C18_raise", "JPV.Props.C18_steps", "JPV.Props.C13_eval"],
         tables=[T + "env_defaults_model"],
         explore=ce.explore_c18,
     ),
@@ -109,7 +109,7 @@ PROPS = {
     ),
     "C13": dict(
         modules=["JPV.Props.C13", "JPV.Props.C09"],
-        theorems=["JPV.Props.C13_compile", "JPV.Props.C13_lex", "JPV.Props.C13_token_shapes", "JPV.Props.C13_eval_partial", "JPV.Props.C13_str_total",
+        theorems=["JPV.Props.C13_compile", "JPV.Props.C13_eval", "JPV.Props.C13_lex", "JPV.Props.C13_token_shapes", "JPV.Props.C13_eval_partial", "JPV.Props.C13_str_total",
                   "JPV.Props.C09_no_index_error", "JPV.Props.C05_partial"],
         tables=[T + "exceptions_model", T + "regexes_model", T + "escapes_model", T + "token_map_model"],
         explore=ct.explore_c13,
